@@ -223,7 +223,7 @@ pub fn gen_v3_connect(t: &mut Tape, cfg: &GenCfg, proto: Protocol) -> Result<v3:
     Ok(v3::Connect {
         protocol: proto,
         clean_session: t.flag(),
-        keep_alive: t.u16(),
+        keep_alive: t.u16b(),
         client_id: gen_arc_string(t, cfg),
         last_will: try_opt(t, |t| {
             Ok(v3::LastWill { qos: gen_qos(t), retain: t.flag(), topic_name: gen_topic_name(t, cfg)?, message: gen_bytes(t, cfg) })
@@ -373,10 +373,10 @@ fn gen_payload(t: &mut Tape, cfg: &GenCfg, utf8: bool) -> Bytes {
 
 pub fn gen_v5_connect(t: &mut Tape, cfg: &GenCfg) -> Result<v5::Connect, GenError> {
     let properties = v5::ConnectProperties {
-        session_expiry_interval: opt(t, |t| t.u32()),
-        receive_max: opt(t, |t| t.u16()),
-        max_packet_size: opt(t, |t| t.u32()),
-        topic_alias_max: opt(t, |t| t.u16()),
+        session_expiry_interval: opt(t, |t| t.u32b()),
+        receive_max: opt(t, |t| t.u16b()),
+        max_packet_size: opt(t, |t| t.u32b()),
+        topic_alias_max: opt(t, |t| t.u16b()),
         request_response_info: opt(t, |t| t.flag()),
         request_problem_info: opt(t, |t| t.flag()),
         user_properties: gen_user_props(t, cfg),
@@ -386,9 +386,9 @@ pub fn gen_v5_connect(t: &mut Tape, cfg: &GenCfg) -> Result<v5::Connect, GenErro
     let last_will = try_opt(t, |t| {
         let payload_is_utf8 = opt(t, |t| t.flag());
         let wp = v5::WillProperties {
-            delay_interval: opt(t, |t| t.u32()),
+            delay_interval: opt(t, |t| t.u32b()),
             payload_is_utf8,
-            message_expiry_interval: opt(t, |t| t.u32()),
+            message_expiry_interval: opt(t, |t| t.u32b()),
             content_type: opt(t, |t| gen_arc_string(t, cfg)),
             response_topic: try_opt(t, |t| gen_topic_name(t, cfg))?,
             correlation_data: opt(t, |t| gen_bytes(t, cfg)),
@@ -405,7 +405,7 @@ pub fn gen_v5_connect(t: &mut Tape, cfg: &GenCfg) -> Result<v5::Connect, GenErro
     Ok(v5::Connect {
         protocol: Protocol::V500,
         clean_start: t.flag(),
-        keep_alive: t.u16(),
+        keep_alive: t.u16b(),
         properties,
         client_id: gen_arc_string(t, cfg),
         last_will,
@@ -559,19 +559,19 @@ pub fn gen_v5_of_type(t: &mut Tape, cfg: &GenCfg, typ: usize) -> Result<v5::Pack
         0 => P::Connect(gen_v5_connect(t, cfg)?),
         1 => {
             let properties = v5::ConnackProperties {
-                session_expiry_interval: opt(t, |t| t.u32()),
-                receive_max: opt(t, |t| t.u16()),
+                session_expiry_interval: opt(t, |t| t.u32b()),
+                receive_max: opt(t, |t| t.u16b()),
                 max_qos: opt(t, |t| if t.flag() { QoS::Level1 } else { QoS::Level0 }),
                 retain_available: opt(t, |t| t.flag()),
-                max_packet_size: opt(t, |t| t.u32()),
+                max_packet_size: opt(t, |t| t.u32b()),
                 assigned_client_id: opt(t, |t| gen_arc_string(t, cfg)),
-                topic_alias_max: opt(t, |t| t.u16()),
+                topic_alias_max: opt(t, |t| t.u16b()),
                 reason_string: opt(t, |t| gen_arc_string(t, cfg)),
                 user_properties: gen_user_props(t, cfg),
                 wildcard_subscription_available: opt(t, |t| t.flag()),
                 subscription_id_available: opt(t, |t| t.flag()),
                 shared_subscription_available: opt(t, |t| t.flag()),
-                server_keep_alive: opt(t, |t| t.u16()),
+                server_keep_alive: opt(t, |t| t.u16b()),
                 response_info: opt(t, |t| gen_arc_string(t, cfg)),
                 server_reference: opt(t, |t| gen_arc_string(t, cfg)),
                 auth_method: opt(t, |t| gen_arc_string(t, cfg)),
@@ -587,8 +587,8 @@ pub fn gen_v5_of_type(t: &mut Tape, cfg: &GenCfg, typ: usize) -> Result<v5::Pack
             let payload_is_utf8 = opt(t, |t| t.flag());
             let properties = v5::PublishProperties {
                 payload_is_utf8,
-                message_expiry_interval: opt(t, |t| t.u32()),
-                topic_alias: opt(t, |t| t.u16()),
+                message_expiry_interval: opt(t, |t| t.u32b()),
+                topic_alias: opt(t, |t| t.u16b()),
                 response_topic: try_opt(t, |t| gen_topic_name(t, cfg))?,
                 correlation_data: opt(t, |t| gen_bytes(t, cfg)),
                 user_properties: gen_user_props(t, cfg),
@@ -690,7 +690,7 @@ pub fn gen_v5_of_type(t: &mut Tape, cfg: &GenCfg, typ: usize) -> Result<v5::Pack
         13 => P::Disconnect(v5::Disconnect {
             reason_code: DISCONNECT_REASONS[t.pick(DISCONNECT_REASONS.len())],
             properties: v5::DisconnectProperties {
-                session_expiry_interval: opt(t, |t| t.u32()),
+                session_expiry_interval: opt(t, |t| t.u32b()),
                 reason_string: opt(t, |t| gen_arc_string(t, cfg)),
                 user_properties: gen_user_props(t, cfg),
                 server_reference: opt(t, |t| gen_arc_string(t, cfg)),
